@@ -70,7 +70,53 @@ def ob_finalize_retention(run, oid):
         o.check(not bad and bool(rows), "finalize|keeps-from-finalized-slot", "kept iff entry.slot() >= finalized slot, for every kind of entry", b.span, {"problems": bad[:3]})
 
 
+# panic sites of the execution module on the reviewed tree: (fn, kind, what) -> (count, reason). The trie's own sites rest on its shape invariants (bitmap <-> children
+# vector, a branch has >= 2 entries, ..), which the crate's randomized differential tests exercise and which are NOT decided here; what this table decides is that no NEW
+# way to panic appears in the read / write API (a lookup, an iteration or a length query of any state, the empty one included, answers - it does not abort)
+EXEC_PANICS = {
+    ("execution::commitment::LtHash::add_entry", "arith", "add_assign LtHash"): (1, "lane-wise wrapping addition (O20.2): cannot overflow"),
+    ("execution::commitment::LtHash::remove_entry", "arith", "sub_assign LtHash"): (1, "lane-wise wrapping subtraction (O20.2)"),
+    ("execution::commitment::LtHash::digest", "method", "slice::chunks_exact_mut"): (1, "chunk size is the constant 2"),
+    ("execution::commitment::LtHash::digest", "method", "slice::copy_from_slice"): (1, "2-byte chunk <- u16::to_le_bytes()"),
+    ("execution::commitment::LtHash::digest", "index", "[u8; 2048][_]"): (1, "bytes[2 * i..2 * i + 2] with i < NUM_LANES over the [u8; 2 * NUM_LANES] buffer (index spelling of chunks_exact_mut(2).zip(lanes))"),
+    ("execution::commitment::LtHash::hash_entry", "method", "slice::chunks_exact_mut"): (1, "constant chunk size LANES_PER_BLOCK"),
+    ("execution::commitment::LtHash::hash_entry", "method", "slice::chunks_exact"): (1, "constant chunk size 2"),
+    ("execution::commitment::LtHash::hash_entry", "assert", "BoundsCheck"): (2, "pair[0], pair[1] of a chunks_exact(2) chunk"),
+    ("execution::state::Branch::insert_child", "panic", "panicking::panic"): (1, "trie shape invariant (slot not occupied): debug assertion"),
+    ("execution::state::Branch::remove_child", "panic", "panicking::panic"): (1, "trie shape invariant (slot occupied): debug assertion"),
+    ("execution::state::State::get", "index", "SmallVec<[Arc<Node>; 4]>[_]"): (1, "child position = popcount of the bitmap below an occupied bit < children.len() (bitmap <-> children invariant)"),
+    ("execution::state::State::insert_rec", "panic", "panicking::panic"): (2, "unreachable!() arms of the node match / depth bound (keys differ within 256 bits)"),
+    ("execution::state::State::insert_rec", "index", "SmallVec<[Arc<Node>; 4]>[_]"): (1, "bitmap <-> children invariant"),
+    ("execution::state::State::remove", "unwrap", "Option::expect"): (1, "remove_rec returns a value whenever the key was found (checked before the call)"),
+    ("execution::state::State::remove_rec", "panic", "panicking::panic"): (1, "unreachable!() arm"),
+    ("execution::state::State::remove_rec", "index", "SmallVec<[Arc<Node>; 4]>[_]"): (4, "bitmap <-> children invariant"),
+    ("execution::state::chunk_at", "panic", "panicking::panic"): (1, "depth bound assertion (depth < 52: keys are 256 bits, 5 bits per level)"),
+    ("execution::state::chunk_at", "assert", "DivisionByZero"): (2, "division by the constant 8"),
+    ("execution::state::chunk_at", "assert", "RemainderByZero"): (1, "remainder by the constant 8"),
+    ("execution::state::chunk_at", "assert", "BoundsCheck"): (1, "byte index < 32 for depth < 52 (O20.6 evaluates chunk_at for every depth)"),
+    ("execution::state::split_leaves", "panic", "panicking::panic"): (1, "two different keys differ within 256 bits"),
+    ("execution::state::take_leaf_value", "panic", "panicking::panic"): (2, "called on a uniquely owned leaf only (caller matched it)"),
+}
+
+
+def ob_exec_panics(run, oid):
+    from engine import panics
+    from . import panic_review
+    prog = run.program("lib")
+    o = run.ob(oid, "no new way to panic in the execution module: every panic site of execution::{state, commitment} is one of the reviewed ones",
+               "'answers lookups, length and ordered iteration exactly like an ordinary ordered map': a map never aborts on a lookup, an iteration or a length query - of any state, "
+               "the empty one included", floor=15)
+    roots = [d for d, b in prog.bodies.items() if d.startswith(A + "execution::state::") or d.startswith(A + "execution::commitment::")]
+    roots = [d for d in roots if "::tests::" not in d and not prog.bodies[d].generated]
+    if not roots:
+        o.missing("execution::state / execution::commitment")
+        return o
+    panics.review(o, prog, roots, EXEC_PANICS, fshort, scope=lambda d: d.startswith(A + "execution::"), auto=panic_review.auto)
+    return o
+
+
 def check(run):
+    ob_exec_panics(run, "O20.11")
     ob_finalize_retention(run, "O20.10")
     from . import detectors as _DC
     _DC.ob_narrowing_casts(run, "O20.9", ['execution::'], 'trie chunk indices and bitmap positions are small by construction (masked); anything else that is narrowed loses key bits')
